@@ -27,8 +27,12 @@ typedef VP_REAL T;
 #define VP_GHOST(...) __VA_ARGS__
 #endif
 
+#ifdef VP_NO_CANARY
+#define VP_CANARY() ((void)0)
+#else
 #define VP_CANARY() __CPROVER_assert(0, "VP_CANARY reachable (must fail)")
-#define VP_SZ_MAX ((size_t)-1)
+#endif
+#define VP_SZ_MAX 18446744073709551615UL
 #define VP_ISNAN(a) ((a) != (a))
 #define VP_ISINF(a) (!VP_ISNAN(a) && VP_ISNAN((a) - (a)))
 #define VP_FINITE(a) (!VP_ISNAN((a) - (a)))
@@ -106,6 +110,32 @@ VP_DEFINE_VEC_OPS(vec_sz, size_t)
 
 static inline size_t vp_max_sz(size_t a, size_t b) { return a < b ? b : a; }
 static inline size_t vp_min_sz(size_t a, size_t b) { return a < b ? a : b; }
+
+/* ---------------------------------------------------------------------------------------
+ * Floating-point operators.  In abstract-FP mode (VP_AF) the extractor emits vp_fmul(a,b) etc. for
+ * the C operators of functions listed in the job's `af` set, and these are UNINTERPRETED functions:
+ * a proof then holds for every binary operation, in particular the IEEE one (sound), and formula
+ * pins become congruence.  Without VP_AF the same text computes with the real operators (bit-precise).
+ * ------------------------------------------------------------------------------------- */
+#if defined(VP_AF) && !defined(VP_NATIVE)
+T __CPROVER_uninterpreted_fmul(T, T);
+T __CPROVER_uninterpreted_fdiv(T, T);
+T __CPROVER_uninterpreted_fadd(T, T);
+T __CPROVER_uninterpreted_fsub(T, T);
+T __CPROVER_uninterpreted_i2f(size_t);
+#define vp_fmul(a, b) __CPROVER_uninterpreted_fmul((a), (b))
+#define vp_fdiv(a, b) __CPROVER_uninterpreted_fdiv((a), (b))
+#define vp_fadd(a, b) __CPROVER_uninterpreted_fadd((a), (b))
+#define vp_fsub(a, b) __CPROVER_uninterpreted_fsub((a), (b))
+#define vp_i2f(a) __CPROVER_uninterpreted_i2f((size_t)(a))
+#else
+#define vp_fmul(a, b) ((a) * (b))
+#define vp_fdiv(a, b) ((a) / (b))
+#define vp_fadd(a, b) ((a) + (b))
+#define vp_fsub(a, b) ((a) - (b))
+#define vp_i2f(a) ((T)(a))
+#endif
+#define vp_f2i(a) ((size_t)(a))
 
 /* ---------------------------------------------------------------------------------------
  * libm: assumed contracts (DESIGN.md section 4); natively the real functions
